@@ -75,6 +75,10 @@ func setCatch(sh *shape, on bool) {
 		o.HasCatch = on
 	case *BoolNode:
 		o.HasCatch = on
+	case *FloatNode:
+		o.HasCatch = on
+	case *TimeNode:
+		o.HasCatch = on
 	}
 }
 
@@ -155,6 +159,7 @@ func destEqualExcept(a, b *Dest, skip string) bool {
 	}
 	ok = v.And(ok, a.N.Y == b.N.Y)
 	ok = v.And(ok, v.And(a.C == b.C, a.U == b.U))
+	ok = v.And(ok, v.And(v.SameBits(a.F, b.F), a.W.Equal(b.W)))
 	if len(a.LN) != len(b.LN) || (a.PN == nil) != (b.PN == nil) {
 		return false
 	}
@@ -469,6 +474,18 @@ func C05_Run(job string) {
 				v.Assert(o1.dB == n.Catch, "C05:failure-did-not-yield-catch-value")
 			} else {
 				v.Assert(o1.dB == o2.dB, "C05:catch-value-used-without-failure")
+			}
+		case *FloatNode:
+			if failed {
+				v.Assert(v.SameBits(o1.dF, n.Catch), "C05:failure-did-not-yield-catch-value")
+			} else {
+				v.Assert(v.SameBits(o1.dF, o2.dF), "C05:catch-value-used-without-failure")
+			}
+		case *TimeNode:
+			if failed {
+				v.Assert(o1.dT.Equal(n.Catch), "C05:failure-did-not-yield-catch-value")
+			} else {
+				v.Assert(o1.dT.Equal(o2.dT), "C05:catch-value-used-without-failure")
 			}
 		}
 		_ = other
@@ -800,6 +817,10 @@ func populated(n Node) bool {
 		return len(x.S) > 0
 	case *BoolNode:
 		return x.B
+	case *FloatNode:
+		return x.F != 0
+	case *TimeNode:
+		return !x.zero
 	case *SliceNode:
 		ok := len(x.inEls) > 0
 		for _, e := range x.inEls {
@@ -1048,6 +1069,7 @@ func C13_Run(job string) {
 	} else {
 		v.Assert(fullCodes(o1.list) == fullCodes(o2.list), "C13:issues-differ-between-modes")
 		v.Assert(v.And(o1.dInt == o2.dInt, v.And(o1.dStr == o2.dStr, o1.dB == o2.dB)), "C13:values-differ-between-modes")
+		v.Assert(v.And(v.SameBits(o1.dF, o2.dF), o1.dT.Equal(o2.dT)), "C13:values-differ-between-modes")
 	}
 }
 
